@@ -317,6 +317,50 @@ theorem bytesLe_trans (a b c : Bytes) (h1 : bytesLe a b = true) (h2 : bytesLe b 
                 exact ih ys zs h1 h2
 
 
+/-! ## delta records sorted by (address, text) -/
+
+theorem ruleLe_total (a b : Nat × Bytes) : ruleLe a b = true ∨ ruleLe b a = true := by
+  unfold ruleLe
+  rcases Nat.lt_trichotomy a.1 b.1 with h | h | h
+  · left; simp [h]
+  · rcases bytesLe_total a.2 b.2 with hb | hb
+    · left; simp [h, hb]
+    · right; simp [h, hb]
+  · right; simp [h]
+
+theorem ruleLe_trans (a b c : Nat × Bytes) (h1 : ruleLe a b = true) (h2 : ruleLe b c = true) :
+    ruleLe a c = true := by
+  unfold ruleLe at *
+  simp only [Bool.or_eq_true, decide_eq_true_eq, Bool.and_eq_true, beq_iff_eq] at *
+  rcases h1 with h1 | ⟨h1, h1'⟩
+  · rcases h2 with h2 | ⟨h2, _⟩
+    · left; omega
+    · left; omega
+  · rcases h2 with h2 | ⟨h2, h2'⟩
+    · left; omega
+    · right; exact ⟨by omega, bytesLe_trans _ _ _ h1' h2'⟩
+
+theorem ruleLe_addr (a b : Nat × Bytes) (h : ruleLe a b = true) : a.1 ≤ b.1 := by
+  unfold ruleLe at h
+  simp only [Bool.or_eq_true, decide_eq_true_eq, Bool.and_eq_true, beq_iff_eq] at h
+  rcases h with h | ⟨h, _⟩ <;> omega
+
+theorem takeWhile_eq_filter_of_sorted (l : List (Nat × Bytes)) (a : Nat)
+    (h : l.Pairwise (fun x y => x.1 ≤ y.1)) :
+    l.takeWhile (fun r => decide (r.1 ≤ a)) = l.filter (fun r => decide (r.1 ≤ a)) := by
+  induction l with
+  | nil => rfl
+  | cons x l ih =>
+    rw [List.pairwise_cons] at h
+    by_cases hx : x.1 ≤ a
+    · rw [List.takeWhile_cons_of_pos (by simp [hx]), List.filter_cons_of_pos (by simp [hx]), ih h.2]
+    · rw [List.takeWhile_cons_of_neg (by simp [hx]), List.filter_cons_of_neg (by simp [hx])]
+      symm
+      rw [List.filter_eq_nil_iff]
+      intro y hy
+      have := h.1 y hy
+      simp; omega
+
 /-! ## the rule map -/
 
 theorem get_remove_ne (m : RuleMap) (k k' : CfiReg) (h : k ≠ k') : (m.remove k').get k = m.get k := by
